@@ -14,9 +14,11 @@ WordNAFromFile == {}
 
 
 \* one step of a history on the model state m = [st, db, ctr, handed]
-Step(m, s) ==
-  IF m.st # "ok" THEN m
-  ELSE CASE s.op = "update" ->
+WantsBackup(s) == s.op \in {"update", "updatefail", "delete"} /\ "backup" \in DOMAIN s /\ s.backup
+Step(m0, s) ==
+  IF m0.st # "ok" THEN m0
+  ELSE LET m == IF WantsBackup(s) THEN [m0 EXCEPT !.bak = Proj(m0.db)] ELSE m0 IN
+       CASE s.op = "update" ->
               LET r == Update(m.db, m.ctr, s.feats, s.cfg) IN
               IF r.st = "raise" THEN [m EXCEPT !.st = "raise"] ELSE [m EXCEPT !.db = r.db, !.ctr = r.ctr]
          [] s.op = "updatefail" -> [m EXCEPT !.st = "failed"]        \* only the backup is asserted afterwards (by the harness)
@@ -29,13 +31,13 @@ Run(m, steps, acc) ==
   IF steps = <<>> THEN acc
   ELSE LET m1 == Step(m, Head(steps)) IN
        \* a step that raises / does not find its argument leaves the database as it was and the history goes on
-       LET m2 == IF m1.st \in {"raise", "notfound"} THEN [m EXCEPT !.st = "ok"] ELSE m1 IN
-       Run(m2, Tail(steps), Append(acc, Snap(m1.st, m1.db, m1.ctr)))
+       LET m2 == IF m1.st \in {"raise", "notfound"} THEN [m EXCEPT !.st = "ok", !.bak = m1.bak] ELSE m1 IN
+       Run(m2, Tail(steps), Append(acc, (Snap(m1.st, m1.db, m1.ctr) @@ [bak |-> m1.bak])))
 
 Trajectory(h) ==
   LET c == Create(h.init.feats, h.init.dirs, DefaultDialect, h.init.cfg) IN
-  IF c.st = "raise" THEN <<Snap("raise", EmptyDB, {})>>
-  ELSE Run([st |-> "ok", db |-> c.db, ctr |-> c.ctr], h.steps, <<Snap("ok", c.db, c.ctr)>>)
+  IF c.st = "raise" THEN <<Snap("raise", EmptyDB, {}) @@ [bak |-> [none |-> TRUE]]>>
+  ELSE Run([st |-> "ok", db |-> c.db, ctr |-> c.ctr, bak |-> [none |-> TRUE]], h.steps, <<Snap("ok", c.db, c.ctr) @@ [bak |-> [none |-> TRUE]]>>)
 
 RelView(db) == [kids |-> {[x |-> x, l |-> l, ids |-> Children(db, x, l)] : x \in Ids(db), l \in 0..2},
                 pars |-> {[x |-> x, l |-> l, ids |-> Parents(db, x, l)] : x \in Ids(db), l \in 0..2},
